@@ -72,7 +72,7 @@ func init() {
 	reg(&propInfo{id: "C05", engine: "inproc", pkg: "snaps", level: "model_checking", needsE3: false, envMatrix: updMatrix, shardsQ: 4, shardsT: 4})
 	reg(&propInfo{id: "C06", engine: "inproc", pkg: "snaps", level: "model_checking", racePass: true, shardsQ: 16})
 	reg(&propInfo{id: "C12", engine: "inproc", pkg: "snaps", level: "model_checking", racePass: true})
-	reg(&propInfo{id: "C20", engine: "inproc", pkg: "snaps", level: "model_checking", racePass: true})
+	reg(&propInfo{id: "C20", engine: "inproc", pkg: "snaps", level: "model_checking", racePass: true, envMatrix: updMatrix, shardsQ: 2, shardsT: 4})
 	reg(&propInfo{id: "C13", engine: "inproc", pkg: "snaps", level: "exploration"})
 	reg(&propInfo{id: "C14", engine: "inproc", pkg: "snaps", level: "exploration"})
 	reg(&propInfo{id: "C15", engine: "inproc", pkg: "snaps", level: "exploration"})
